@@ -95,6 +95,7 @@ fn judge_history<K: Kit>(ctx: &Ctx, b: &mut Batch, kit: &K, h: &History, recs: &
             ctx.violate(&format!("wrong-result:{pname}:{what}"), format!("call {ci} {} returned {} [history: {}]", c.op.short(), c.res.short(), h.describe()), replay());
         };
         match &c.op {
+            Op::ScaleParams(_) => {}
             Op::Setup(_) | Op::SetupMixed(..) | Op::SetPd(_) => {
                 if c.res != Res::Done {
                     unexpected("setup-did-not-return-normally");
